@@ -2,13 +2,13 @@ INIT Init
 NEXT Next
 VIEW View
 CONSTANTS
-  Chans = {"1a", "1b", "2a"}
-  ChanSeqs <- MC_ChanSeqs
+  Chans = {"1a", "1b"}
+  ChanSeqs <- MC_ChanSeqsBurst
   Subs = {1, 2}
   MaxEv = 3
-  AbandonSubs = {1, 2}
-  QMaxes = {0, 1, 2}
-  Bursts = FALSE
+  AbandonSubs = {1}
+  QMaxes = {0, 1}
+  Bursts = TRUE
 INVARIANT InOrder
 INVARIANT OwnChannelsOnly
 INVARIANT QueueOwnChannels
